@@ -153,6 +153,7 @@ inductive Err
   | clearingBid | clearingAsk | overfill | underfill
   | diffUninvolved | diffBalance | diffState | diffIndexDust | diffIndexNeg | diffIndexOob | diffValue
   | diffScriptDerive | diffScript
+  | diffDuplicate | diffNewExpiry | diffNewVersion
   | nodeFilter
   /-- a Go run-time panic (slice index out of range) -/
   | panic
@@ -170,6 +171,7 @@ def Err.name : Err → String
   | .diffUninvolved => "diff-uninvolved" | .diffBalance => "diff-balance" | .diffState => "diff-state"
   | .diffIndexDust => "diff-index-dust" | .diffIndexNeg => "diff-index-neg" | .diffIndexOob => "diff-index-oob"
   | .diffValue => "diff-value" | .diffScriptDerive => "diff-script-derive" | .diffScript => "diff-script"
+  | .diffDuplicate => "diff-duplicate" | .diffNewExpiry => "diff-new-expiry" | .diffNewVersion => "diff-new-version"
   | .nodeFilter => "node-filter" | .panic => "panic"
 
 /-! ## `order/batch.go`: batch version predicates -/
@@ -406,26 +408,49 @@ def verifyOrders (env : Env) (b : Batch) : Tallies → List (Nonce × List Their
     | .error e => .error e
     | .ok st' => verifyOrders env b st' rest
 
-/-- one iteration of `for _, diff := range batch.AccountDiffs` -/
-def verifyDiff (env : Env) (b : Batch) (st : Tallies) (d : Diff) : Except Err Tallies :=
+/-- Which of the three checks added by the repair (`fix: order: reject duplicate account diffs, unknown new account
+versions and over-long new expiries in batch verification`) are present.  `Rules.fixed` is the repaired code (what
+the driver runs), `Rules.pinned` the code as found. -/
+structure Rules where
+  rejectDuplicateDiffs : Bool
+  boundNewExpiry : Bool
+  validateNewVersion : Bool
+deriving Repr, DecidableEq
+
+def Rules.fixed : Rules := ⟨true, true, true⟩
+def Rules.pinned : Rules := ⟨false, false, false⟩
+
+/-- `account.ValidateVersion` -/
+def validateVersion (v : Nat) : Bool := Pool.Gen.validAccountVersions.contains v
+
+/-- one iteration of `for _, diff := range batch.AccountDiffs`; `seen` = keys of the diffs processed so far -/
+def verifyDiff (env : Env) (rules : Rules) (b : Batch) (best : UInt32) (st : Tallies) (seen : List Key) (d : Diff) :
+    Except Err Tallies :=
   match findEntry d.acctKey st with
   | none => .error .diffUninvolved
   | some e =>
+    if rules.rejectDuplicateDiffs && seen.contains d.acctKey then .error .diffDuplicate else
     -- tally.ChainFees(batch.BatchTxFeeRate, acct.Version)
     let bal := w64 (e.bal - estimateTraderFee e.chans b.feeRate e.acct.version)
     if d.endingBalance != bal then .error .diffBalance else
-    let acct := if supportsAccountExtension b.version && d.newExpiry != 0 then { e.acct with expiry := d.newExpiry } else e.acct
-    let acct := if supportsAccountTaprootUpgrade b.version && d.newVersion > acct.version then { acct with version := d.newVersion } else acct
+    let ext := supportsAccountExtension b.version && d.newExpiry != 0
+    -- uint64(diff.NewExpiry) > uint64(bestHeight) + uint64(account.MaxAccountExpiry)
+    if rules.boundNewExpiry && ext && d.newExpiry > best.toNat + Pool.Gen.maxAccountExpiry then .error .diffNewExpiry else
+    let acct := if ext then { e.acct with expiry := d.newExpiry } else e.acct
+    let upg := supportsAccountTaprootUpgrade b.version && d.newVersion > acct.version
+    if rules.validateNewVersion && upg && !validateVersion d.newVersion then .error .diffNewVersion else
+    let acct := if upg then { acct with version := d.newVersion } else acct
     match validateEndingState env b.txOuts acct d with
     | .error err => .error err
     | .ok () => .ok (setEntry { e with bal := bal, acct := acct } st)
 
-def verifyDiffs (env : Env) (b : Batch) : Tallies → List Diff → Except Err Tallies
-  | st, [] => .ok st
-  | st, d :: rest =>
-    match verifyDiff env b st d with
+def verifyDiffs (env : Env) (rules : Rules) (b : Batch) (best : UInt32) :
+    Tallies → List Key → List Diff → Except Err Tallies
+  | st, _, [] => .ok st
+  | st, seen, d :: rest =>
+    match verifyDiff env rules b best st seen d with
     | .error e => .error e
-    | .ok st' => verifyDiffs env b st' rest
+    | .ok st' => verifyDiffs env rules b best st' (d.acctKey :: seen) rest
 
 /-- the uint32 window test of `Verify` -/
 def heightOk (best hint : UInt32) : Bool :=
@@ -433,12 +458,12 @@ def heightOk (best hint : UInt32) : Bool :=
   !(best < hint - pad || best > hint + pad)
 
 /-- `batchVerifier.Verify` -/
-def verify (env : Env) (b : Batch) (best : UInt32) : Except Err Tallies :=
+def verify (env : Env) (rules : Rules) (b : Batch) (best : UInt32) : Except Err Tallies :=
   if b.version != env.version then .error .version
   else if !heightOk best b.heightHint then .error .height
   else match verifyOrders env b [] b.matched with
     | .error e => .error e
-    | .ok st => verifyDiffs env b st b.diffs
+    | .ok st => verifyDiffs env rules b best st [] b.diffs
 
 /-! ## `order/manager.go` -/
 
@@ -459,9 +484,9 @@ def nodeFilter (env : Env) : List (Nonce × List Their) → Except Err Unit
       else .error .nodeFilter
 
 /-- `manager.OrderMatchValidate`: result and the new `pendingBatch` (id), given the old one -/
-def orderMatchValidate (env : Env) (b : Batch) (best : UInt32) (pending : Option String) :
+def orderMatchValidate (env : Env) (rules : Rules) (b : Batch) (best : UInt32) (pending : Option String) :
     Except Err Tallies × Option String :=
-  match verify env b best with
+  match verify env rules b best with
   | .error e => (.error e, pending)
   | .ok st =>
     match nodeFilter env b.matched with
